@@ -458,11 +458,11 @@ class Input(object):
                         self.locking_script += varstr(k.public_byte) + b'\xad\xab'
                     if len(self.locking_script) > 3:
                         self.locking_script = self.locking_script[:-2] + b'\xac'
-                    if signatures:
+                    if signatures and unlock_script:
                         self.witnesses = unlock_script
                 elif self.witness_type == 'p2sh-segwit':
                     self.unlocking_script = varstr(b'\0' + varstr(self.public_hash))
-                    if signatures:
+                    if signatures and unlock_script:
                         self.witnesses = unlock_script
                 elif unlock_script != b'': # and self.strict:
                     self.unlocking_script = unlock_script
